@@ -250,6 +250,7 @@ pub fn reset_states(ctx: &Ctx) {
     }
     ctx.rdv.lock().unwrap().clear();
     ctx.cur_call.store(0, Ordering::SeqCst);
+    ctx.async_dispatched.store(0, Ordering::SeqCst);
     ctx.top_inst.store(0, Ordering::SeqCst);
     ctx.next_inst.store(1, Ordering::SeqCst);
 }
